@@ -26,6 +26,13 @@ pub struct Case {
 
 fn gen_start(u: &mut Unstructured) -> arbitrary::Result<i64> {
     let k = u.int_in_range(0..=7u8)?;
+    if k == 7 {
+        // the turn of a year next to a leap year / a common century year, any day of Nov..Mar
+        let y = *u.choose(&[2023i64, 2024, 2027, 2028, 2095, 2096, 2099, 2100, 2103, 2104, 1999, 2000, 2199, 2200])?;
+        let (yy, m) = *u.choose(&[(y, 11u32), (y, 12), (y, 12), (y + 1, 1), (y + 1, 2), (y + 1, 3)])?;
+        let d = u.int_in_range(1..=cal::month_len(yy, m))?;
+        return Ok(cal::days_from_ymd(yy, m, d) * 86_400 + u.int_in_range(0..=86_399i64)?);
+    }
     let y = if k == 0 { u.int_in_range(1970..=2399i64)? } else { *u.choose(&[1999i64, 2000, 2023, 2024, 2025, 2027, 2028, 2096, 2099, 2100, 2103, 2104, 2399])? };
     let (m, d) = match u.int_in_range(0..=5u8)? {
         0 => (2, 28),
@@ -58,6 +65,16 @@ fn gen_schedule(u: &mut Unstructured) -> arbitrary::Result<String> {
     let dow = if matches!(day_mode, 0 | 1 | 3) { c16::gen_field(u, FieldKind::Dow, sparse)? } else { "*".to_string() };
     let month = if u.ratio(1, 2)? { "*".to_string() } else { c16::gen_field(u, FieldKind::Month, sparse)? };
     let special = u.int_in_range(0..=19u8)?;
+    if (4..=7).contains(&special) {
+        // long-gap family: only days 29+ (so short months are skipped) x an arbitrary subset of
+        // months; the search has to cross month ends, year ends and leap/common Februaries
+        let dom = *u.choose(&["29", "29-31", "29,30", "30", "31", "30,31", "29,31", "*/29", "*/30"])?;
+        let mask = u.int_in_range(1..=4095u32)?;
+        let mask = if u.ratio(1, 2)? { mask | 0b10 } else { mask }; // often with February
+        let months: Vec<String> = (1..=12).filter(|m| mask & (1 << (m - 1)) != 0).map(|m| m.to_string()).collect();
+        let (mi, ho) = if u.ratio(1, 2)? { ("0".to_string(), "0".to_string()) } else { (minute.clone(), hour.clone()) };
+        return Ok(format!("{} {} {} {} *", mi, ho, dom, months.join(",")));
+    }
     Ok(match special {
         0 => "0 0 29 2 *".to_string(),
         1 => "59 23 31 12 *".to_string(),
